@@ -192,7 +192,7 @@ def shard_exotic(args):
     from curtsies.formatstring import FmtStr
 
     acc = Acc(seed=seed)
-    specs = C.exotic_specs()
+    specs = C.exotic_specs() + C.huge_specs()
     for si in range(idx, len(specs), 8):
         spec = specs[si]
         f = C.build(spec)
